@@ -134,3 +134,55 @@ pub open spec fn found_whole(r: Regex, s: Seq<char>) -> bool { first_match(r, s)
     b.trusted += ['formatting model (R16); closure plumbing dropped: iter().map(closure).join / collect_vec / for_each / all apply the closure per element, in order',
                   'Grapheme::escape_regexp_symbols is opaque here (`escaped` uninterpreted): only the argument order is checked']
     return b
+
+
+# ---------------------------------------------------------------------------------------------------------------------------------------
+def build_dispatch(repo, spec_dir, canary=False):
+    """unit `dispatch` (C06, C15, C11): Display for Expression hands every variant to its formatter with the variant's fields in their positions
+    (the constructors put the settings into these positions: unit expr, *.settings_in_their_positions)."""
+    b = Builder('dispatch', repo, canary)
+    b.emit('#![feature(allocator_api)]\nuse vstd::prelude::*;\nuse std::collections::BTreeSet;\nverus! {')
+    for f, h in [('quantifier.rs', r'^pub enum Quantifier \{'), ('grapheme.rs', r'^pub struct Grapheme \{'), ('config.rs', r'^pub struct RegExpConfig \{'),
+                 ('cluster.rs', r"^pub struct GraphemeCluster<'a> \{"), ('expression.rs', r"^pub enum Expression<'a> \{")]:
+        b.type_item(f, h)
+    b.emit('''pub struct Formatter<'a> { pub buf: Ghost<Seq<char>>, pub p: &'a u8 }
+impl<'a> View for Formatter<'a> { type V = Seq<char>; closed spec fn view(&self) -> Seq<char> { self.buf@ } }
+pub struct VxErr { pub x: u8 }
+pub type Result = core::result::Result<(), VxErr>;
+// what each formatter writes for the arguments it is given: opaque here (units format / charclass / nested decide them)
+pub uninterp spec fn alt_out(e: Expression, options: Seq<Expression>, capturing: bool, colorized: bool, verbose: bool) -> Seq<char>;
+pub uninterp spec fn class_out(set: BTreeSet<char>, colorized: bool) -> Seq<char>;
+pub uninterp spec fn concat_out(e: Expression, e1: Expression, e2: Expression, capturing: bool, colorized: bool, verbose: bool) -> Seq<char>;
+pub uninterp spec fn literal_out(c: GraphemeCluster, escaped: bool, surrogates: bool) -> Seq<char>;
+pub uninterp spec fn rep_out(e: Expression, e1: Expression, q: Quantifier, capturing: bool, colorized: bool, verbose: bool) -> Seq<char>;
+#[verifier::external_body] pub fn format_alternation(f: &mut Formatter<'_>, expr: &Expression, options: &[Expression], is_capturing_group_enabled: bool, is_output_colorized: bool, is_verbose_mode_enabled: bool) -> (r: Result)
+    ensures final(f)@ == old(f)@ + alt_out(*expr, options@, is_capturing_group_enabled, is_output_colorized, is_verbose_mode_enabled) { unimplemented!() }
+#[verifier::external_body] pub fn format_character_class(f: &mut Formatter<'_>, char_set: &BTreeSet<char>, is_output_colorized: bool) -> (r: Result)
+    ensures final(f)@ == old(f)@ + class_out(*char_set, is_output_colorized) { unimplemented!() }
+#[verifier::external_body] pub fn format_concatenation(f: &mut Formatter<'_>, expr: &Expression, expr1: &Expression, expr2: &Expression, is_capturing_group_enabled: bool, is_output_colorized: bool, is_verbose_mode_enabled: bool) -> (r: Result)
+    ensures final(f)@ == old(f)@ + concat_out(*expr, *expr1, *expr2, is_capturing_group_enabled, is_output_colorized, is_verbose_mode_enabled) { unimplemented!() }
+#[verifier::external_body] pub fn format_literal(f: &mut Formatter<'_>, cluster: &GraphemeCluster, is_non_ascii_char_escaped: bool, is_astral_code_point_converted_to_surrogate: bool) -> (r: Result)
+    ensures final(f)@ == old(f)@ + literal_out(*cluster, is_non_ascii_char_escaped, is_astral_code_point_converted_to_surrogate) { unimplemented!() }
+#[verifier::external_body] pub fn format_repetition(f: &mut Formatter<'_>, expr: &Expression, expr1: &Expression, quantifier: &Quantifier, is_capturing_group_enabled: bool, is_output_colorized: bool, is_verbose_mode_enabled: bool) -> (r: Result)
+    ensures final(f)@ == old(f)@ + rep_out(*expr, *expr1, *quantifier, is_capturing_group_enabled, is_output_colorized, is_verbose_mode_enabled) { unimplemented!() }
+// position 1.. of every variant: the settings in the order the constructors write them (capturing, colorized, verbose; escaped, surrogates)
+pub open spec fn shown_by_its_formatter(e: Expression) -> Seq<char> {
+    match e {
+        Expression::Alternation(o, a, b, c) => alt_out(e, o@, a, b, c),
+        Expression::CharacterClass(s, b) => class_out(s, b),
+        Expression::Concatenation(x, y, a, b, c) => concat_out(e, *x, *y, a, b, c),
+        Expression::Literal(cl, a, b) => literal_out(cl, a, b),
+        Expression::Repetition(x, q, a, b, c) => rep_out(e, *x, q, a, b, c),
+    }
+}''')
+    fm = b.src('format.rs')
+    item, _, _ = X.item(fm, r"^impl Display for Expression<'_> \{")
+    body = item[item.index('fn fmt'):]
+    body = body[:L.match_close(body, body.index('{')) + 1]
+    sig_end = body.index('{')
+    b.slice_fn('expression_fmt', "pub fn expression_fmt<'x>(e: &Expression<'x>, f: &mut Formatter<'_>) -> (r: Result)", '    ' + body[sig_end + 1:-1].replace('match self {', 'match e {', 1).replace('                self,\n', '                e,\n'),
+               "format.rs::impl Display for Expression, body of fmt (R18: `self` is the parameter `e`)", props=['C07'],
+               clauses=[Clause('dispatch.every_variant_goes_to_its_formatter_with_its_settings_in_order', 'final(f)@ == old(f)@ + shown_by_its_formatter(*e)', ['C06', 'C15', 'C11'])])
+    b.emit('} // verus!\nfn main() {}')
+    b.trusted += ['the five formatters are opaque here (uninterpreted output as a function of their arguments): only WHICH arguments Display for Expression passes is decided; what a formatter writes is decided in units format, charclass, nested, render']
+    return b
